@@ -32,9 +32,12 @@ Canon(d) == /\ \A i \in 1..3 : (i > Len(d.rs) \/ d.rs[i] \in {"T1", "T2", "st"})
 Tok(d, i) == IF d.rs[i] \in {"T1", "T2", "st"} \/ (d.nonnil[i] /\ ~(d.tnil /\ d.rs[i] = "err")) THEN i ELSE 0
 HasErr(d) == Len(d.rs) > 0 /\ d.rs[Len(d.rs)] = "err"
 Expected(d) ==
-  IF d.fail THEN [len |-> 0, outs |-> <<>>, errnil |-> FALSE, errtok |-> 0, resolved |-> FALSE]
+  IF d.fail THEN [len |-> 0, outs |-> <<>>, outnil |-> <<>>, errnil |-> FALSE, errtok |-> 0, resolved |-> FALSE]
   ELSE LET n == IF HasErr(d) THEN Len(d.rs) - 1 ELSE Len(d.rs) IN
        [len |-> n, outs |-> [i \in 1..n |-> Tok(d, i)],
+        \* Out(i) is the returned value itself: only a nil value of the INTERFACE type error is a nil interface - a nil
+        \* pointer (concrete error type, pointer to a marker struct) stays a typed nil
+        outnil |-> [i \in 1..n |-> d.rs[i] = "err" /\ ~d.nonnil[i]],
         errnil |-> ~(HasErr(d) /\ d.nonnil[Len(d.rs)]),
         errtok |-> IF HasErr(d) /\ d.nonnil[Len(d.rs)] /\ ~d.tnil THEN Len(d.rs) ELSE 0, resolved |-> TRUE]
 
@@ -54,6 +57,7 @@ C17 == rec.ev = "obs" =>
    /\ rec.panic = ""
    /\ rec.len = e.len
    /\ rec.outs = e.outs
+   /\ rec.outnil = e.outnil
    /\ rec.errnil = e.errnil
    /\ rec.errtok = e.errtok
    /\ (~e.resolved) => rec.unsat
